@@ -362,7 +362,7 @@ func (serviceCore *ServiceCore) DeleteClientAccessControls(clientID string) {
 
 	serviceCore.accessControls.Delete(clientID)
 
-	jsonData, _ := json.Marshal(serviceCore.GetClients())
+	jsonData, _ := json.Marshal(serviceCore.GetAllAccessControls())
 	_ = ioutil.WriteFile(serviceCore.Location+string(os.PathSeparator)+"acls.json", jsonData, 0o644)
 }
 
